@@ -1,3 +1,6 @@
 import GoRedisModel.Properties.C04
 open GoRedis
-#print axioms C04_placeholder
+#print axioms C04_every_write_is_a_frame
+#print axioms C04_framed
+#print axioms C04_line_reply_sanitised
+#print axioms C04_uninterpretable_request
